@@ -354,6 +354,31 @@ impl Gen {
     self.plan.push_back((Op::Recv(1, Req::Members { id, chan: "!c1@localhost".into(), page: None, size: None }), Self::ok_env()));
   }
 
+  /// churn prologue (event-forwarding modulator, IDENTIFY): an owner with another member in its channel goes away while
+  /// the modulator refuses the notifications of its clean-up; then the same name identifies again on a new connection
+  pub fn plan_name_reuse_after_failed_cleanup(&mut self) {
+    for (i, u) in ["alice", "bob"].iter().enumerate() {
+      let k = i + 1;
+      self.plan.push_back((Op::Open, Self::ok_env()));
+      self.conns.insert(k, GConn { phase: 2, user: Some(u.to_string()), open: true });
+      self.plan.push_back((Op::Recv(k, Req::Connect { version: 1, hb: 0 }), Self::ok_env()));
+      self.plan.push_back((Op::Recv(k, Req::Identify { username: u.to_string() }), Self::ok_env()));
+      let id = self.id();
+      self.plan.push_back((Op::Recv(k, Req::Join { id, chan: "!c1@localhost".into(), ob: None }), Self::ok_env()));
+    }
+    let mut e = Self::ok_env();
+    e.ev_ok = false;
+    self.plan.push_back((Op::Close(1), e));
+    self.conns.insert(1, GConn { phase: 2, user: Some("alice".into()), open: false });
+    self.plan.push_back((Op::Open, Self::ok_env()));
+    self.conns.insert(3, GConn { phase: 2, user: Some("alice".into()), open: true });
+    self.plan.push_back((Op::Recv(3, Req::Connect { version: 1, hb: 0 }), Self::ok_env()));
+    self.plan.push_back((Op::Recv(3, Req::Identify { username: "alice".into() }), Self::ok_env()));
+    let id = self.id();
+    self.plan.push_back((Op::Recv(3, Req::Channels { id, page: None, size: None, owner: false }), Self::ok_env()));
+    self.next_conn = 4;
+  }
+
   /// scenario `acl`, after a scripted connection was closed by the server (typically the owner, refused with a
   /// non-recoverable POLICY_VIOLATION for an over-limit update): the survivors read every list back and probe,
   /// so that a refused update that nevertheless took effect is seen
@@ -923,6 +948,9 @@ pub async fn run_case(cfg: SrvCfg, rng: Rng, max_steps: usize, mode: &str) -> (C
   }
   if mode == "churn" {
     g.mode = "churn".into();
+    if cfg.has_op(Operation::ForwardEvent) && !cfg.has_op(Operation::Auth) && g.rng.chance(1, 2) {
+      g.plan_name_reuse_after_failed_cleanup();
+    }
   }
   if mode == "kf_cleanup" {
     g.plan_kf_cleanup();
